@@ -470,7 +470,6 @@ Definition noq : quirks := Quirks false false false false false.
 Definition is_enum (s : spec) : bool := match s with SEnum _ _ => true | _ => false end.
 Definition is_union (s : spec) : bool := match s with SUnion _ _ => true | _ => false end.
 Definition is_any (s : spec) : bool := match s with SAny _ => true | _ => false end.
-Definition enum_vals (s : spec) : list pv := match s with SEnum vs _ => vs | _ => [] end.
 
 (* isinstance(b, a.__class__) for the concrete spec classes *)
 Definition same_class (a b : spec) : bool :=
@@ -488,16 +487,22 @@ Definition none_ok (ma mb : mods) : bool := noneable ma || negb (noneable mb).
 Definition frozen_ok (q : quirks) (ma mb : mods) : bool :=
   q_frozen_recv q || negb (frozen ma) || (frozen mb && py_eq (dflt ma) (dflt mb)).
 
+Definition enum_vals (s : spec) : list pv := match s with SEnum vs _ => vs | _ => [] end.
 (* every type the sender can produce is (a subclass of) one of ts *)
 Definition types_within (vb : option (list ty)) (ts : list ty) : bool :=
   match vb with Some us => forallb (fun u => existsb (issub u) ts) us | None => false end.
 (* repaired Enum._is_compatible: an Enum whose value type is int (bool) refuses floats (ints),
-   so the other Enum must be typed within it *)
+   so every candidate of the other Enum must be an instance of that type *)
+Definition all_typed_within (vs : list pv) (t : ty) : bool :=
+  forallb (fun w => match w with
+                    | PNone => true
+                    | _ => match type_of w with Some tw => issub tw t | None => false end
+                    end) vs.
 Definition enum_types_ok (q : quirks) (vals : list pv) (b : spec) : bool :=
   q_enum_subset q ||
   match enum_vtype vals with
-  | Some [TyInt] => types_within (vtype b) [TyInt]
-  | Some [TyBool] => types_within (vtype b) [TyBool]
+  | Some [TyInt] => all_typed_within (enum_vals b) TyInt
+  | Some [TyBool] => all_typed_within (enum_vals b) TyBool
   | _ => true
   end.
 
@@ -873,7 +878,7 @@ Definition extend (q : quirks) (c b : spec) : res spec :=
    case  ::= ((q ...) 0 partial spec pv)   apply      -> (0 pv) | (1 err)
            | ((q ...) 1 a b)               compat     -> (b)
            | ((q ...) 2 c b)               extend     -> (0 spec) | (1 err)
-           | ((q ...) 3 spec)              theorem hypotheses -> (wfb keys_ok sizes_ok)
+           | ((q ...) 3 spec)              theorem hypotheses -> (wfb keys_ok sizes_ok enums_ok)
    err   ::= 1 TypeError | 2 ValueError | 3 KeyError *)
 
 Fixpoint e_pv (v : pv) : tr :=
@@ -1083,7 +1088,7 @@ Fixpoint sizes_ok (s : spec) : bool :=
 
 (* ------------------------------------------------------------------------------------------ *)
 (** * Decidable versions of the theorem hypotheses (run on every generated spec by the harness:
-      case ((q ...) 3 spec) -> (wfb keys_ok sizes_ok)) *)
+      case ((q ...) 3 spec) -> (wfb keys_ok sizes_ok enums_ok)) *)
 
 (* structural equality of values *)
 Fixpoint pv_eqb (a b : pv) {struct a} : bool :=
@@ -1130,7 +1135,20 @@ Fixpoint wfb (s : spec) : bool :=
   | _ => true
   end.
 
-Definition run_hyps (s : spec) : tr := L [ebool (wfb s); ebool (keys_ok s); ebool (sizes_ok s)].
+
+(* an Enum is noneable exactly when None is one of its values (Enum.__init__ / Enum.noneable) *)
+Fixpoint enums_ok (s : spec) : bool :=
+  match s with
+  | SEnum vs m => Bool.eqb (noneable m) (has_none vs)
+  | SList e _ _ _ => enums_ok e
+  | STuple es _ _ _ => forallb enums_ok es
+  | SDict (Some fs) _ => forallb (fun kf => enums_ok (snd kf)) fs
+  | SUnion cs _ => forallb enums_ok cs
+  | _ => true
+  end.
+
+Definition run_hyps (s : spec) : tr :=
+  L [ebool (wfb s); ebool (keys_ok s); ebool (sizes_ok s); ebool (enums_ok s)].
 
 Definition run (c : tr) : tr :=
   match c with
